@@ -24,6 +24,7 @@ CONFIGS = [
     Config(PROP, V, C, ' keep-sorted="asc" keep-sorted-format=" lexicographic "', 'trim', 'asc', AB, AB + [32]),
     Config(PROP, V, C, ' keep-sorted keep-sorted-pattern="k=(?P<value>[ab]+)"', 'group', 'asc', [97, 98]),
     Config(PROP, V, C, ' keep-sorted="desc" keep-sorted-pattern="[ab]+"', 'plain', 'desc', [97, 98]),
+    Config(PROP, V, C, ' keep-sorted keep-sorted-pattern="z(?P<value>[ab]+)?"', 'group-optional', 'asc', [97, 98]),
 ]
 SPECS = [(0, 1, 0), (1, 2, 0), (0, 2, 1), (1, 0, 0), (0, 0, 0)]
 NUM_SPECS = [(0, 1, 0), (1, 2, 0), (0, 3, 1), (1, 0, 0)]
